@@ -23,7 +23,7 @@ from vf.lang import (
 )
 from vf.props.c01 import ast_signature
 
-KINDS = ["marginal", "marginal", "lognorm", "plate", "mixture", "mixture_all", "twostep", "integrate_var", "integrate_gauss", "moment", "deficient", "boundary", "integrate_signed"]
+KINDS = ["marginal", "marginal", "lognorm", "plate", "mixture", "mixture_all", "twostep", "integrate_var", "integrate_gauss", "moment", "deficient", "boundary", "integrate_signed", "gauss_all", "mixture_pair"]
 
 
 def rspec(name):
@@ -106,6 +106,39 @@ def gen_case(src):
         names = g.subset(reals, 1, len(reals))
         g2 = gauss_leaf(g, avail, rank_mode=g.pick(["full", "over", "deficient"]), real_names=g.perm(names))
         node = ("integrate", body, g2, rv(reals))
+    elif kind == "gauss_all":
+        # a bare Gaussian whose integer inputs sit between its real inputs: one reduction takes integer and real inputs
+        # together and keeps at least one real input
+        leaf2 = gauss_leaf(g, avail, rank_mode=g.pick(["full", "over"]), nreal=g.pick([2, 3]), max_dim=4)
+        for _ in range(6):
+            if leaf2[1] and len(leaf2[2]) >= 2:
+                break
+            leaf2 = gauss_leaf(g, avail, rank_mode=g.pick(["full", "over"]), nreal=g.pick([2, 3]), max_dim=4)
+        rr = [n for n, sh in leaf2[2]]
+        ii = [(n, s_) for n, s_ in leaf2[1]]
+        keep = g.pick(rr)
+        red_r = [n for n in rr if n != keep]
+        red_r = g.subset(red_r, 1, len(red_r)) if red_r else []
+        red_i = g.subset(ii, 1, len(ii)) if ii else []
+        node = ("red", "logaddexp", leaf2, tuple(red_i) + rv(red_r)) if (red_i or red_r) else ("red", "logaddexp", leaf2, rv(rr))
+    elif kind == "mixture_pair":
+        # two Tensor + Gaussian mixtures contracted together; an integer variable of the weights that no Gaussian mentions
+        # is among the reduced ones
+        nm = sorted(avail)
+        i_, j_ = nm[0], nm[1 % len(nm)]
+        shared_r = g.subset(reals, 1, len(reals))
+        g1 = gauss_leaf(g, set(), rank_mode="full", real_names=g.perm(shared_r))
+        g2 = ("gauss",) + tuple(gauss_leaf(g, {j_} if j_ != i_ else set(), rank_mode=g.pick(["full", "over"]), real_names=g.perm(shared_r))[1:])
+        def ten_(names_):
+            ins_ = tuple((n, g.sizes[n]) for n in dict.fromkeys(names_))
+            return ("ten", ins_, (), "real", g.expand(WVALS, g.numel([s_ for _, s_ in ins_])), False)
+        t1 = ten_([i_])
+        t2 = ten_([i_] + ([j_] if j_ != i_ and j_ in dict(g2[1]) else []))
+        m1 = ("bin", "add", t1, g1) if g.chance(0.5) else ("bin", "add", g1, t1)
+        m2 = ("bin", "add", t2, g2) if g.chance(0.5) else ("bin", "add", g2, t2)
+        both = ("bin", "add", m1, m2)
+        vs_ = ((i_, g.sizes[i_]),) + (rv(g.subset(shared_r, 1, len(shared_r))) if g.chance(0.5) else ())
+        node = ("red", "logaddexp", both, vs_)
     elif kind == "integrate_signed":
         # integrands that are signed / transformed Gaussians and sums of them: -g2, (-g2) + g1, g1 - g2, exp(g2) + g1
         mk = lambda: gauss_leaf(g, avail, rank_mode=g.pick(["full", "over"]), real_names=g.perm(g.subset(reals, 1, len(reals))))  # noqa: E731
